@@ -428,7 +428,7 @@ def gen_call(tier, rng):
   # ---- (1) exhaustive small universe
   bs = [list(t) for n in (1, 2, 3) for t in itertools.product(SMALL, repeat=n)]
   as_ = [[a0] + list(t) for a0 in A0S for n in (0, 1, 2) for t in itertools.product(SMALL, repeat=n)]
-  keep = 1500.0 / (len(bs) * len(as_)) if quick else 1.0
+  keep = 1000.0 / (len(bs) * len(as_)) if quick else 1.0
   for b in bs:
     for a in as_:
       if keep < 1.0 and rng.random() > keep:
@@ -442,7 +442,7 @@ def gen_call(tier, rng):
              "tamper": [], "sym": sym, "runs": [mk_run(rng, lm_guess(num, den), sym, az)],
              "tags": ["exh", "sym" if sym else "num", "allzero" if az else "lb=%d,la=%d" % (len(b), len(a))]}
   # ---- (2) random sparse dicts, negative / shifted powers, explicit zeros, empty denominators
-  n2 = 700 if quick else 7000
+  n2 = 500 if quick else 7000
   pool = [Fraction(1), Fraction(-1), Fraction(0), Fraction(2), Fraction(-1, 2), Fraction(1, 3), Fraction(-5, 4),
           Fraction(3), Fraction(1, 10), Fraction(-7)]
   for i in range(n2):
